@@ -149,6 +149,13 @@ class SequenceSet(Parseable[Sequence[_SeqElem]]):
         return f'<SequenceSet {attr}={self.sequences!r}>'
 
     @classmethod
+    def _parse_num(cls, buf: memoryview, digits: bytes) -> int:
+        try:
+            return int(digits)
+        except ValueError as exc:
+            raise NotParseable(buf) from exc
+
+    @classmethod
     def _parse_part(cls, buf: memoryview) -> tuple[_SeqElem, memoryview]:
         if buf and buf[0] == 0x2a:
             item1: _SeqIdx = cls._max
@@ -156,8 +163,8 @@ class SequenceSet(Parseable[Sequence[_SeqElem]]):
         else:
             match = cls._num_pattern.match(buf)
             if match:
+                item1 = cls._parse_num(buf, match.group(0))
                 buf = buf[match.end(0):]
-                item1 = int(match.group(0))
             else:
                 raise NotParseable(buf)
         if buf and buf[0] == 0x3a:
@@ -166,8 +173,8 @@ class SequenceSet(Parseable[Sequence[_SeqElem]]):
                 return (item1, cls._max), buf[1:]
             match = cls._num_pattern.match(buf)
             if match:
-                buf = buf[match.end(0):]
-                return (item1, int(match.group(0))), buf
+                item2 = cls._parse_num(buf, match.group(0))
+                return (item1, item2), buf[match.end(0):]
             raise NotParseable(buf)
         return item1, buf
 
